@@ -1,0 +1,53 @@
+# -*- coding: utf-8 -*-
+"""
+Verification hooks.
+
+This module is imported only when the environment variable AMOCO_VERIF is "1"
+(see the guarded import at the end of cas/expressions.py). It wraps a few
+module-level entry points so that an external verification harness can observe
+calls at their return. Nothing is recorded unless the harness installs a sink:
+
+    import amoco._verif_hooks as h
+    h.sink = callable(event, *args) -> token
+
+Events ("<name>:pre" before the call, "<name>:post" after it, on the error path
+too); nested calls are attributed to the outermost one (depth counter).
+"""
+
+sink = None
+_depth = 0
+
+
+def _wrap(ns, name):
+    orig = ns[name]
+
+    def wrapper(*args):
+        global _depth
+        s = sink
+        if s is None or _depth > 0:
+            return orig(*args)
+        _depth += 1
+        try:
+            tok = s(name + ":pre", args, None, None)
+            res = exc = None
+            try:
+                res = orig(*args)
+                return res
+            except BaseException as e:
+                exc = e
+                raise
+            finally:
+                s(name + ":post", args, res if exc is None else exc, tok)
+        finally:
+            _depth -= 1
+
+    wrapper.__name__ = orig.__name__
+    wrapper.__doc__ = orig.__doc__
+    wrapper.__wrapped__ = orig
+    ns[name] = wrapper
+
+
+def install_expressions(ns):
+    "wrap oper / slicer / composer in the namespace of cas.expressions"
+    for name in ("oper", "slicer", "composer"):
+        _wrap(ns, name)
